@@ -378,6 +378,9 @@ impl CodegenContext {
             // (unless it is also a scope that holds other symbols)
             if self.symbols.children(nx).is_empty() {
                 self.symbols.remove(nx);
+                // The index will be handed out again, possibly to another symbol
+                self.analysis
+                    .remove_definition(&DefinitionType::Symbol(nx));
             } else {
                 self.symbols.update_data(nx, None);
             }
